@@ -901,8 +901,38 @@ theorem esdoc_panic_old_witness :
 panic branch: `answer`). -/
 theorem esdoc_answers_for_every_document (c : Consts) (k : Case) :
     ∃ es doc hec loki otlp : String, answer c k = s!"es={es} | esdoc={doc} | hec={hec} | loki={loki} | otlp={otlp}"
-      ∧ doc = canonical .direct (flatten tsKey (envEsDoc k.tree)) :=
+      ∧ doc = stored .direct (envEsDoc k.tree) :=
   ⟨_, _, _, _, _, rfl, rfl⟩
+
+/-- THE LONGEST STRING VALUE (patch c16-4): a document that GetNewPLE accepts holds no string value of more than
+65532 bytes, so the two length bytes of every stored string value say its length exactly and the end index of its
+record (3 + length) fits into the uint16 the readers keep it in — for EVERY tree, at every depth, through every
+protocol (each hands a tree to the same flattener). -/
+theorem accepted_strings_fit (ts : Bytes) (doc : Members) (h : longMembers doc = false)
+    (q : Bytes × Atom) (hq : q ∈ flatten ts doc) (s : Bytes) (hs : q.2 = .str s) :
+    s.length ≤ maxStringBytes ∧ s.length % 65536 = s.length ∧ (3 + s.length) % 65536 = 3 + s.length := by
+  unfold flatten at hq
+  obtain ⟨x, hx, rfl, _⟩ := (mem_flatMembers ts [] doc q).mp hq
+  have h1 := longMembers_false doc h x hx
+  simp only at hs
+  rw [hs] at h1
+  have h2 : s.length ≤ 65532 := by simpa [Atom.tooLong, maxStringBytes] using h1
+  exact ⟨h2, Nat.mod_eq_of_lt (by omega), Nat.mod_eq_of_lt (by omega)⟩
+
+/-- a document with a longer string value is refused by every protocol (the specification's answer) -/
+theorem long_string_refused (m : NumMode) (doc : Members) (h : longMembers doc = true) : stored m doc = "rejected" := by
+  simp [stored, h]
+
+/-- BEFORE the repair nothing was refused and a value came back with its length mod 65536: 70000 bytes sent, 4464
+returned; 65536 bytes sent, the empty string (= no field) returned. -/
+theorem long_string_old_counterexample :
+    ¬ (∀ n : Nat, storedLenOld n = n) ∧ storedLenOld 70000 = 4464 ∧ storedLenOld 65536 = 0 := by
+  refine ⟨fun h => ?_, by decide, by decide⟩
+  have := h 65536
+  revert this; decide
+
+example : -- non-vacuous: a 3-byte value is accepted, the guard of accepted_strings_fit is satisfiable
+    longMembers (.cons [97] (.leaf (.str [1, 2, 3])) .nil) = false := by decide
 
 end Content
 
